@@ -18,9 +18,10 @@ RULE = ("scenes from the seed, each built in all three cyclic orientations throu
         "rotated) with CW or pulse profile, FieldDetector and PoyntingFluxDetector without exact interpolation "
         "(sub-boxes, reduce_volume on/off, keep_all_components, fixed_propagation_axis), materials overwritten by "
         "rotated random arrays (isotropic, diagonal, or full 9-component tensors rotated as R T R^T; optional sigma_E / "
-        "sigma_H) or placed as UniformMaterialObject boxes with diagonal/full tensors. "
-        "The quick tier forces: a scene with PML on an axis pair and a '+' uniform plane source, a scene with one-sided "
-        "PML + PEC/PMC + '-' Gaussian plane source + dipole, a PML-free scene with walls. Oracle: max |rot^-r(result_r) "
+        "sigma_H, incl. full 9-component conductivity tensors with all off-diagonals non-zero next to full inv_eps / inv_mu) or placed as UniformMaterialObject boxes with diagonal/full tensors. "
+        "The quick tier forces: a scene with PML on an axis pair, a '+' uniform plane source + electric dipole, full inv_eps "
+        "AND full sigma_E; a scene with one-sided PML + PEC/PMC + '-' Gaussian plane source + dipole, full inv_mu AND full "
+        "sigma_H; a PML-free diagonal-tier scene with walls (compared with the model). Oracle: max |rot^-r(result_r) "
         "- result_0| <= 1e-9 * max|result| for E, H and every raw record (run_fdtd resets the fields, so levels are set by the sources). K: forward() of each orientation of "
         "PML-free scenes (tiers <= 3) vs model fwd / rotfwd, Poynting record vs rotpoynting. non-trivial = every scene "
         "(all have sources and a non-cubic shape or distinct faces).")
@@ -192,11 +193,17 @@ def gen_case(rng, thorough, force=None):
     has_plane = any(s["kind"] in ("uniform", "gauss") for s in srcs)
     c["eps_tier"] = force.get("eps_tier") or rng.choice([1, 3, 3, 9])
     c["mu_tier"] = force.get("mu_tier", rng.choice([0, 1, 3, 3, 9]))
-    if c["eps_tier"] == 9 or c["mu_tier"] == 9:
-        # the 9-component update needs both tensors in 3x3 form; sigma stays off (lossless full tensors)
-        c["eps_tier"], c["mu_tier"] = 9, 9 if c["mu_tier"] == 9 else rng.choice([0, 3])
-    c["sig_e"] = c["eps_tier"] != 9 and rng.chance(0.35)
-    c["sig_h"] = c["eps_tier"] != 9 and c["mu_tier"] != 9 and rng.chance(0.25)
+    # lossy full tensors: a 9-component conductivity (all off-diagonals non-zero) next to the 9-component inverse
+    # permittivity (resp. permeability). Only then is the `A` matrix of the full-tensor update different from the identity,
+    # i.e. only then are the off-diagonal FIELD averages (Ey at Ez, Hx at Hy, ...) of update_E/update_H exercised at all.
+    c["sig_e_full"] = bool(force.get("sig_e_full", c["eps_tier"] == 9 and rng.chance(0.6)))
+    c["sig_h_full"] = bool(force.get("sig_h_full", c["mu_tier"] == 9 and rng.chance(0.6)))
+    if c["sig_e_full"]:
+        c["eps_tier"] = 9
+    if c["sig_h_full"]:
+        c["mu_tier"] = 9
+    c["sig_e"] = c["sig_e_full"] or (c["eps_tier"] != 9 and rng.chance(0.35))
+    c["sig_h"] = c["sig_h_full"] or (c["mu_tier"] != 9 and rng.chance(0.25))
     boxes = []
     if c["mat_mode"] == "boxes":
         for _ in range(rng.choice([1, 2])):
@@ -339,8 +346,20 @@ def base_arrays(c):
         out["inv_mu"] = r.uniform(0.4, 1.0, (c["mu_tier"], nx, ny, nz))
     if c["eps_tier"] == 9 and out["inv_mu"] is None:
         out["inv_mu"] = None
-    out["sig_e"] = r.uniform(0.0, 0.02, (c["eps_tier"], nx, ny, nz)) if c["sig_e"] else None
-    out["sig_h"] = r.uniform(0.0, 2e3, (max(c["mu_tier"], 1), nx, ny, nz)) if c["sig_h"] else None
+    def full_sigma(scale):
+        """symmetric positive definite conductivity tensor per cell with every off-diagonal entry bounded away from 0"""
+        T = spd(0.8, 1.5, 0.4).reshape(3, 3, nx, ny, nz)
+        off = r.uniform(0.15, 0.35, (3, 3, nx, ny, nz)) * r.choice([-1.0, 1.0], (3, 3, 1, 1, 1))
+        off = 0.5 * (off + np.swapaxes(off, 0, 1)) * (1.0 - np.eye(3))[:, :, None, None, None]
+        return ((T + off) * scale).reshape(9, nx, ny, nz)
+    if c.get("sig_e_full"):
+        out["sig_e"] = full_sigma(0.012)
+    else:
+        out["sig_e"] = r.uniform(0.0, 0.02, (c["eps_tier"], nx, ny, nz)) if c["sig_e"] else None
+    if c.get("sig_h_full"):
+        out["sig_h"] = full_sigma(1.2e3)
+    else:
+        out["sig_h"] = r.uniform(0.0, 2e3, (max(c["mu_tier"], 1), nx, ny, nz)) if c["sig_h"] else None
     if c["init_fields"]:
         out["E"], out["H"] = r.standard_normal((3, nx, ny, nz)), r.standard_normal((3, nx, ny, nz)) / 377.0 * 300
     else:
@@ -520,16 +539,20 @@ def forced(rng):
     p2[b] = rng.choice([("pml", "none"), ("pec", "pml"), ("pml", "pmc")])
     p3 = rng.shuffle([("pec", "pmc"), ("periodic", "periodic"), rng.choice([("none", "pmc"), ("pec", "none"), ("pmc", "pmc")])])
     return [
-        dict(pairs=p1, sources=["uniform"], src_axis=[a], src_dir=["+"], mat_mode="arrays", eps_tier=1, mu_tier=0),
-        dict(pairs=p2, sources=["gauss", rng.choice(["dipole_e", "dipole_m"])], src_axis=[b, None], src_dir=["-", None]),
+        dict(pairs=p1, sources=["uniform", "dipole_e"], src_axis=[a, None], src_dir=["+", None], mat_mode="arrays",
+             eps_tier=9, sig_e_full=True, mu_tier=rng.choice([0, 3]), sig_h_full=False, nonuniform=False),
+        dict(pairs=p2, sources=["gauss", rng.choice(["dipole_e", "dipole_m"])], src_axis=[b, None], src_dir=["-", None],
+             mat_mode="arrays", eps_tier=rng.choice([1, 3]), sig_e_full=False, mu_tier=9, sig_h_full=True),
         dict(pairs=p3, sources=[rng.choice(["uniform", "gauss"]), rng.choice(["dipole_e", "dipole_m"])],
-             mat_mode="arrays", eps_tier=3, mu_tier=3, nonuniform=rng.chance(0.5), init_fields=True),
+             mat_mode="arrays", eps_tier=3, mu_tier=3, sig_e_full=False, sig_h_full=False, nonuniform=rng.chance(0.5),
+             init_fields=True),
     ]
 
 
 def counters(c):
     d = {"grid": "nonuniform" if c["widths"] else "uniform", "mat_mode": c["mat_mode"], "eps_tier": c["eps_tier"],
-         "mu_tier": c["mu_tier"], "sig_e": c["sig_e"], "sig_h": c["sig_h"], "init_fields": c["init_fields"], "steps": c["steps"]}
+         "mu_tier": c["mu_tier"], "sig_e": c["sig_e"], "sig_h": c["sig_h"], "sig_e_full9": c.get("sig_e_full", False),
+         "sig_h_full9": c.get("sig_h_full", False), "init_fields": c["init_fields"], "steps": c["steps"]}
     for k, v in c["faces"].items():
         d["face_" + v] = True
     if any(v != 1.0 for v in c["kappa"].values()):
@@ -580,7 +603,7 @@ def shrink_variants(c):
         out.append(d)
     if c["mat_mode"] == "arrays" and (c["eps_tier"] != 1 or c["mu_tier"] != 0 or c["sig_e"] or c["sig_h"]):
         d = dict(c)
-        d.update(eps_tier=1, mu_tier=0, sig_e=False, sig_h=False)
+        d.update(eps_tier=1, mu_tier=0, sig_e=False, sig_h=False, sig_e_full=False, sig_h_full=False)
         out.append(d)
     if c["steps"] > 4:
         d = dict(c)
